@@ -282,6 +282,8 @@ fn run_backend(args: &Args) {
     } else {
         kinds
     };
+    let sealed_check = args.flags.iter().any(|f| f == "--sealed-check");
+    let kinds_len = kinds.len();
     let mut rng = Rng::new(args.seed);
     for i in 0..args.cases {
         let mut crng = rng.fork();
@@ -297,21 +299,28 @@ fn run_backend(args: &Args) {
         writeln!(imp, "{}", hdr).unwrap();
         let r = std::panic::catch_unwind(std::panic::AssertUnwindSafe(|| {
             let mut run = backend::BackendRun::new(kind, nh);
-            let mut lines = vec![(format!("BACKEND {}", kind.name()), String::new())];
+            run.sealed_check = sealed_check && (i < kinds_len || i % 4 == 0);
+            let mut lines = vec![(format!("BACKEND {}", kind.name()), String::new(), Vec::new())];
             let mut nver = 0;
             for _ in 0..len {
                 let l = backend::gen_line(&mut run, &mut crng, nh, &mut nver);
-                lines.push(run.exec(&l));
+                let (nl, o) = run.exec(&l);
+                lines.push((nl, o, std::mem::take(&mut run.extra_ops)));
             }
             (lines, run.stats.clone())
         }));
         match r {
             Ok((lines, st)) => {
-                for (l, o) in lines {
+                for (l, o, extra) in lines {
                     writeln!(ops, "{}", l).unwrap();
-                    writeln!(imp, "> {}", shorten(&l)).unwrap();
-                    if !o.is_empty() {
-                        writeln!(imp, "{}", shorten(&o)).unwrap();
+                    for e in extra {
+                        writeln!(ops, "{}", e).unwrap();
+                    }
+                    writeln!(imp, "> {}", l).unwrap();
+                    for ol in o.split('\n') {
+                        if !ol.is_empty() {
+                            writeln!(imp, "{}", ol).unwrap();
+                        }
                     }
                 }
                 for (k, v) in st {
